@@ -6,11 +6,14 @@ META = dict(
                'an area feature or plume that does not contain the point leaves every slot of the answer bit-identical; one that does folds exactly its '
                'models of the requested kind, in list order, over the value painted so far (an empty list leaves it as it was), writes its own tag, '
                'and writes nothing outside the block of the entry it processes; apply_operation and the uniform composition model implement the '
-               'declared operation algebra.',
+               'declared operation algebra; the tian water content model (oceanic plate, subducting plate) leaves the value untouched outside its range and asks nothing, '
+               'and inside it asks the world once for the temperature at its own position and depth, evaluates calculate_water_content at '
+               'max(0.5, min(density*9.81*depth/1e9, cutoff pressure)) and that temperature, and applies the operation with min(max water content, result)/100 '
+               'under the same listed / not-listed rule.',
     level_note='Trusted: translator, shims, CBMC; interface contracts of the model virtuals (any value may be returned); polygon test and depth '
                'surfaces are stubs here (C04/C07/C11). Velocity is specified to restart from zero in every covering feature, as the code does.',
-    scope='ContinentalPlate/OceanicPlate/MantleLayer/Plume::properties; World::properties feature loop (shared with C01); apply_operation; uniform composition of all six feature families; FeatureUtilities::add_vector_unique (tag numbering)',
-    not_covered=['SubductingPlate and Fault properties() (DFCC does not finish on them, DESIGN 15)', 'random models'],
+    scope='ContinentalPlate/OceanicPlate/MantleLayer/Plume::properties; World::properties feature loop (shared with C01); apply_operation; uniform composition of all six feature families; TianWaterContent::get_composition (oceanic plate, subducting plate); FeatureUtilities::add_vector_unique (tag numbering)',
+    not_covered=['SubductingPlate and Fault properties() (DFCC does not finish on them, DESIGN 15)', 'random models', 'the polynomials inside TianWaterContent::calculate_water_content (a contract stub here: arguments checked, any result)'],
     enforced_elsewhere={'grains_ctor': 'C02/grains_ctor', 'grains_unroll_into': 'C02/grains_unroll'},
 )
 FAMILIES = [('ContinentalPlate', 'continental_plate'), ('OceanicPlate', 'oceanic_plate'), ('MantleLayer', 'mantle_layer')]
@@ -181,6 +184,33 @@ for fam, fdir, variant in [(f, d, None) for f, d in FAMILIES] + [('Plume', 'plum
                      '__CPROVER_loop_invariant(i <= this_->compositions.n && (g_listed ==> i <= g_first))\n'
                      '__CPROVER_decreases(this_->compositions.n - i)')}))
 
+
+
+# tian water content (oceanic plate, subducting plate): same selection rule, fraction = capped partition coefficient / 100
+_tfn = 'TIAN_GET'
+for _fam, _fdir, _var in [('OceanicPlate', 'oceanic_plate', None), ('SubductingPlate', 'subducting_plate', 'VARIANT_DIST')]:
+    _tsurf = [] if _var else ['Objects_Surface_local_value', 'Objects_NaturalCoordinate_get_surface_point']
+    _tstubs = _tsurf + ['World_properties_3d', 'TIAN_CALC']
+    _dd = {'MAXP': 4, 'WB_VEC_CAP': 2, 'WB_CAP_vec_uint': 4, 'WB_CAP_vec_double': 4}
+    if _var:
+        _dd[_var] = 1
+    UNITS.append(dict(
+        name='%s_C_tian' % _fdir, enforce=_tfn, contracts='c02_composition_tian.c', harness='h_composition_tian',
+        targets=[dict(tu='source/world_builder/features/%s_models/composition/tian2019_water_content.cc' % _fdir,
+                      qual='WorldBuilder::Features::%sModels::Composition::TianWaterContent::get_composition' % _fam, cname='TIAN_GET')],
+        aliases={'WorldBuilder::Features::%sModels::Composition::TianWaterContent::calculate_water_content|' % _fam: 'TIAN_CALC',
+                 'WorldBuilder::World::properties|std::array<double, 3>': 'World_properties_3d'},
+        stub=_tstubs, nothrow=(['Objects_NaturalCoordinate_get_surface_point'] if _tsurf else []) + ['TIAN_CALC'], replace=_tstubs,
+        defines=_dd, defines_thorough={'MAXP': 16, 'WB_CAP_vec_uint': 16, 'WB_CAP_vec_double': 16},
+        expect_fail=['REACHABILITY-GUARD'], outline_fp='all',
+        canaries=[(r'operation == E_Operations_REPLACE\)', 'operation == E_Operations_REPLACE_DEFINED_ONLY)', 'replace-defined-only clears unlisted compositions instead of replace'),
+                  (r'\(\((wb_t\d+) < (wb_t\d+)\) \? \1 : \2\)', r'((\1 < \2) ? \2 : \1)', 'cutoff pressure used as a lower instead of an upper bound'),
+                  (r'\(\(partition_coefficient < (wb_t\d+)\) \? partition_coefficient : \1\)', r'((partition_coefficient < \1) ? \1 : partition_coefficient)', 'max water content used as a floor instead of a cap'),
+                  (r'&position_in_cartesian_coordinates->point, depth, &(wb_t\d+)', r'&position_in_cartesian_coordinates->point, lithostatic_pressure, &\1', 'world asked at the pressure instead of the depth')],
+        loops={(_tfn, 1): dict(
+            contract='__CPROVER_assigns(i)\n'
+                     '__CPROVER_loop_invariant(i <= this_->compositions.n && (g_listed ==> i <= g_first))\n'
+                     '__CPROVER_decreases(this_->compositions.n - i)')}))
 
 # ----------------------------------------------------------------------------- native replay oracle
 import math, random, json
